@@ -58,7 +58,7 @@ structure St where
   lastModeChange : Int := 0
   lastRestart : Int := 0
   limit : Nat := 0                      -- MaxNumberOfAggregationGroups, 0 = none
-  pendingDestroyed : List String := []  -- destroyed groups still mapped (until maintenance or re-creation)
+  gm : GMap := {}                       -- AM.Group.GMap: mapped group keys (live / destroyed, not yet collected) and the counter
   maintBase : Int := 0                  -- start of the dispatcher's maintenance ticker
   lastT : Int := 0
   limitedAt : List (Nat × Int) := []    -- alerts refused a group by the limit (id, instant)
@@ -129,13 +129,13 @@ def step0 (σ : St) (op obs : List String) : St × List Msg :=
     | none =>
       -- groupAlert: the counter follows the map (live groups + destroyed ones not yet collected); a destroyed
       -- group still mapped is replaced in place (CompareAndSwap) without touching the counter
-      let count := σ.groups.length + σ.pendingDestroyed.length
-      if σ.limit > 0 ∧ count ≥ σ.limit then
+      let (gm', admitted) := gstep σ.limit σ.gm (.ingest g)
+      if !admitted then
         ({ σ with limitedAt := (id, now) :: σ.limitedAt }, [.tag "post:limited"])
       else
-        let σ' := { σ with pendingDestroyed := σ.pendingDestroyed.filter (· ≠ g) }
+        let σ' := { σ with gm := gm' }
         (setG σ' g { g := create now σ.gw a, created := now },
-          [.tag (if σ.pendingDestroyed.contains g then "post:recreate-cas" else if a.starts + σ.gw < now then "post:create-old" else "post:create")])
+          [.tag (if σ.gm.dead.contains g then "post:recreate-cas" else if a.starts + σ.gw < now then "post:create-old" else "post:create")])
   | ["post", _, _, _, _], ["notstored"] => (σ, [.diff "post" "stored" "notstored"])
   | ["adv", _], _ => (σ, [])
   | ["sil", now, id, dur], ["ok"] =>
@@ -172,7 +172,9 @@ def step0 (σ : St) (op obs : List String) : St × List Msg :=
         (acc.filter (·.1 ≠ g)) ++ [(g, gs')]
       | none => acc ++ [(g, { g := { alerts := [(a.id, a)], destroyed := false, nextTick := now + σ.gw },
                               altTick := if old then some now else none, created := now })]) []
-    ({ σ with groups := groups, lastRestart := now, pendingDestroyed := [], maintBase := now }, [.tag "restart"])
+    -- a fresh dispatcher: empty map, every restored group is a LoadOrStore (the generator never restarts under limit 1)
+    let gm := groups.foldl (fun m kv => (gstep 0 m (.ingest kv.1)).1) ({} : GMap)
+    ({ σ with groups := groups, lastRestart := now, gm := gm, maintBase := now }, [.tag "restart"])
   | ["groups", now], [dmp] =>
     let now := toInt! now
     let w := (if σ.gw < σ.gi then σ.gi else σ.gw) + 11000000000
@@ -314,7 +316,7 @@ def step0 (σ : St) (op obs : List String) : St × List Msg :=
           ++ (if res = "ok" ∧ fl.snap.any (fun a => match lookup gs.g.alerts a.id with | some c => c.upd ≠ a.upd | none => false)
               then [Msg.tag "end:refire-survived"] else [])
           ++ (if res ≠ "ok" then [Msg.tag "end:failed"] else [])
-        let σ2 := if g1.destroyed then { delG σ1 g with pendingDestroyed := g :: σ1.pendingDestroyed }
+        let σ2 := if g1.destroyed then { delG σ1 g with gm := (gstep σ1.limit σ1.gm (.destroy g)).1 }
                   else setG σ1 g { gs with g := g1, inflight := none, lastEnd := wall, lastEntries := ents }
         (σ2, msgs ++ mEnt ++ pfLog ++ mRes ++ pfDeadline ++ tags ++ (if g1.destroyed then [.tag "end:destroyed"] else []))
   | _, _ => (σ, [.diff "parse" "?" (" ".intercalate op)])
@@ -331,7 +333,7 @@ def step (σ : St) (op obs : List String) : St × List Msg :=
   let σ1 := match lineTime op with
     | some t =>
       let crossed := (t - σ.maintBase) / maintPeriod > (σ.lastT - σ.maintBase) / maintPeriod
-      { σ with pendingDestroyed := if crossed then [] else σ.pendingDestroyed, lastT := if t > σ.lastT then t else σ.lastT }
+      { σ with gm := if crossed then (gstep σ.limit σ.gm .maintain).1 else σ.gm, lastT := if t > σ.lastT then t else σ.lastT }
     | none => σ
   step0 σ1 op obs
 
